@@ -74,6 +74,38 @@ pub fn run_xdh(tr: &mut Trace, rng: &mut Rng, n: usize) {
 
 // ------------------------------------------------------------------ EdDSA
 
+/// (negative?, magnitude little-endian) of the two coefficients of split_vartime (input selection only)
+pub trait SplitShape { fn shape(&self) -> Vec<(bool, Vec<u8>)>; }
+impl SplitShape for crrl::ed25519::Scalar {
+    fn shape(&self) -> Vec<(bool, Vec<u8>)> {
+        let (c0, c1) = self.split_vartime();
+        vec![(c0 < 0, c0.unsigned_abs().to_le_bytes().to_vec()), (c1 < 0, c1.unsigned_abs().to_le_bytes().to_vec())]
+    }
+}
+impl SplitShape for crrl::ed448::Scalar {
+    fn shape(&self) -> Vec<(bool, Vec<u8>)> {
+        let (c0, c1) = self.split_vartime();
+        let conv = |c: &[u8]| -> (bool, Vec<u8>) {
+            let neg = c[c.len() - 1] >= 0x80;
+            if !neg { return (false, c.to_vec()); }
+            let mut m: Vec<u8> = c.iter().map(|b| !b).collect();
+            let mut cc = 1u16;
+            for x in m.iter_mut() { let t = *x as u16 + cc; *x = t as u8; cc = t >> 8; }
+            (true, m)
+        };
+        vec![conv(&c0), conv(&c1)]
+    }
+}
+/// coefficient shapes that exercise sign handling and byte-wise carries of the callers of split_vartime
+pub fn interesting_shape(sh: &[(bool, Vec<u8>)]) -> Option<usize> {
+    for (i, (neg, m)) in sh.iter().enumerate() {
+        if *neg && m[0] == 0 { return Some(i); }                      // negation carries past the low byte
+        if m[0] == 0 && m[1] == 0 { return Some(2 + i); }             // two zero low bytes
+        if *neg && m[0] == 0xFF && m[1] == 0xFF { return Some(4 + i); }
+    }
+    None
+}
+
 macro_rules! eddsa_impl {
     ($modname:ident, $cname:expr, $m:ident, $seedlen:expr, $plen:expr, $hashk:expr, $torsion:expr) => {
         mod $modname {
@@ -154,6 +186,30 @@ macro_rules! eddsa_impl {
                         verify(tr, other, &pk, &sig, &ctx, &msg);
                         let mut s3 = sig.clone(); s3.push(0); verify(tr, mode, &pk, &s3, &ctx, &msg);
                         s3.truncate(sig.len() - 1); verify(tr, mode, &pk, &s3, &ctx, &msg);
+                    }
+                }
+                // honest signatures whose challenge k splits (k = c0/c1) into coefficients of a rare shape: a negative
+                // coefficient with a zero low byte (its negation carries), zero low bytes; found by search over messages
+                {
+                    let seed = rng.bytes($seedlen);
+                    let pk = PrivateKey::from_seed(&seed).public_key.encode().to_vec();
+                    let mut seen = [0usize; 6];
+                    let mut found = 0usize;
+                    let budget = if n_honest > 20 { 40000u32 } else { 6000u32 };
+                    let want = if n_honest > 20 { 24 } else { 6 };
+                    let base = rng.u64() as u32;
+                    for i in 0..budget {
+                        let msg = base.wrapping_add(i).to_le_bytes().to_vec();
+                        let sg = PrivateKey::from_seed(&seed).sign_raw(&msg).to_vec();
+                        let k = challenge("raw", &sg[..$plen], &pk, &[], &msg);
+                        let cls = match interesting_shape(&k.shape()) { Some(c) => c, None => continue };
+                        if seen[cls] >= 2 + want / 6 { continue; }
+                        seen[cls] += 1; found += 1;
+                        if let Some(sig) = sign(tr, "raw", &seed, &[], &msg) {
+                            verify(tr, "raw", &pk, &sig, &[], &msg);
+                            let mut s2 = sig.clone(); s2[$plen] ^= 1; verify(tr, "raw", &pk, &s2, &[], &msg);
+                        }
+                        if found >= want { break; }
                     }
                 }
                 // adversarial: A = a*B + T1, R = r*B + T2 with T1, T2 small-order points (by their
